@@ -556,7 +556,11 @@ class ZorgFileCompiler(ZorgFileListener):
                     # nothing but its modify date / ZID.
                     continue
                 first_word = words.pop(0)
-                if first_word.endswith("::"):
+                # '[key::' opens an inline property, which has a listener of
+                # its own.
+                if first_word.endswith("::") and not first_word.startswith(
+                    "["
+                ):
                     key = first_word[:-2]
                     value = re.sub(r"\s+", " ", " ".join(words).strip())
                     self._add_prop(key, value)
